@@ -57,7 +57,7 @@ RECURSIVE SumVarLen(_, _)
 SumVarLen(toks, n) == IF n > Len(toks) THEN 0 ELSE VarLen(toks[n]) + SumVarLen(toks, n + 1)
 
 \* decimal ASCII text of a big integer and back
-DecText(x)  == (IF x.neg THEN <<45>> ELSE <<>>) \o [n \in 1..Len(ToDigits(x, 10)) |-> 48 + ToDigits(x, 10)[n]]
+DecText(x)  == LET ds == ToDigits(x, 10) IN (IF x.neg THEN <<45>> ELSE <<>>) \o [n \in 1..Len(ds) |-> 48 + ds[n]]
 IsDecText(s) == /\ s # <<>>
                 /\ LET body == IF s[1] = 45 THEN Tail(s) ELSE s IN
                    body # <<>> /\ \A n \in 1..Len(body) : body[n] \in 48..57
@@ -122,21 +122,24 @@ Encode(prog, version) ==
   IN [magic |-> Magic, off |-> 8 + SumVarLen(e8.p, 1), toks |-> e8.p, strs |-> e8.s]
 
 (***************************************************************************)
-(* decoder: state [p: remaining varints, s: remaining string bytes, err].  *)
+(* decoder: state [p, i: varints and read position, s, j: string section   *)
+(* and read position, err].                                                *)
 (* Every reader returns <<value, state'>> and is total: running out of     *)
 (* input or meeting an impossible count sets err instead of failing, so a  *)
 (* malformed file is rejected, not a crash of the checker.                 *)
 (***************************************************************************)
-D0(enc) == [p |-> enc.toks, s |-> enc.strs, err |-> FALSE]
+D0(enc) == [p |-> enc.toks, i |-> 1, s |-> enc.strs, j |-> 1, err |-> FALSE]
 Fail(d) == [d EXCEPT !.err = TRUE]
-DRaw(d) == IF d.p = <<>> THEN <<<<>>, Fail(d)>> ELSE <<Head(d.p), [d EXCEPT !.p = Tail(@)]>>
+PLeft(d) == Len(d.p) - d.i + 1          \* varints not yet read
+SLeft(d) == Len(d.s) - d.j + 1          \* string bytes not yet read
+DRaw(d) == IF d.i > Len(d.p) THEN <<<<>>, Fail(d)>> ELSE <<d.p[d.i], [d EXCEPT !.i = @ + 1]>>
 DInt(d) == LET x == DRaw(d) IN IF Small(x[1]) THEN <<UnZ(x[1]), x[2]>> ELSE <<0, Fail(x[2])>>
 DBool(d) == LET x == DInt(d) IN <<x[1] # 0, x[2]>>
 \* a count of items still to be read cannot exceed what is left
-DCount(d) == LET x == DInt(d) IN IF x[1] \in 0..Len(x[2].p) THEN x ELSE <<0, Fail(x[2])>>
+DCount(d) == LET x == DInt(d) IN IF x[1] \in 0..PLeft(x[2]) THEN x ELSE <<0, Fail(x[2])>>
 DStr(d) == LET x == DInt(d) IN
-           IF x[1] \in 0..Len(x[2].s)
-           THEN <<SubSeq(x[2].s, 1, x[1]), [x[2] EXCEPT !.s = SubSeq(@, x[1] + 1, Len(@))]>>
+           IF x[1] \in 0..SLeft(x[2])
+           THEN <<SubSeq(x[2].s, x[2].j, x[2].j + x[1] - 1), [x[2] EXCEPT !.j = @ + x[1]]>>
            ELSE <<<<>>, Fail(x[2])>>
 DIdent(d) == LET a == DStr(d) b == DInt(a[2]) c == DInt(b[2]) IN
              <<[name |-> a[1], line |-> b[1], col |-> c[1]], c[2]>>
@@ -191,7 +194,7 @@ Decode(enc, version) ==
   IN [ok |-> /\ enc.magic = Magic
              /\ enc.off = 8 + SumVarLen(enc.toks, 1)
              /\ ver[1] = version
-             /\ ~d.err /\ d.p = <<>> /\ d.s = <<>>,
+             /\ ~d.err /\ PLeft(d) = 0 /\ SLeft(d) = 0,
       prog |-> [filename |-> fil[1], loads |-> lds[1], names |-> nms[1], consts |-> cns[1], globals |-> glb[1],
                 toplevel |-> top[1], funcs |-> fns[1], recursion |-> rec[1]]]
 
